@@ -260,7 +260,10 @@ pub fn step(op: Op, p: &EdwardsPoint, m: &Pt, aj: &Option<(U, u8)>, pool: &[Know
                 let q = pool[i].real;
                 let by_ref: EdwardsPoint = [*p, q, *p].iter().sum();
                 let by_val: EdwardsPoint = vec![*p, q, *p].into_iter().sum();
-                assert!(by_ref.compress() == by_val.compress(), "Sum by reference and by value disagree");
+                // iterators whose size hint is not exact (lower bound 0) must sum to the same point
+                let by_filter: EdwardsPoint = [*p, q, *p].iter().filter(|_| std::hint::black_box(true)).sum();
+                let by_flat: EdwardsPoint = [[*p, q], [*p, EdwardsPoint::identity()]].iter().flat_map(|a| a.iter()).sum();
+                assert!(by_ref.compress() == by_val.compress() && by_filter.compress() == by_ref.compress() && by_flat.compress() == by_ref.compress(), "Sum by reference / by value / over filtered iterators disagree");
                 (by_ref, m.add(&pool[i].pt).add(m), aj_add(&aj_mul(aj, 2), &pool[i].aj, false))
             }
             Op::Select(i) => {
